@@ -443,3 +443,13 @@ mod test {
         assert_eq!(filtered, vec![expected_1, expected_2]);
     }
 }
+
+/// Verification hook (add-only, `--cfg libp2p_verif`): the server's dial-back address filter.
+#[cfg(libp2p_verif)]
+pub fn verif_filter_valid_addrs(
+    peer: PeerId,
+    demanded: Vec<Multiaddr>,
+    observed_remote_at: &Multiaddr,
+) -> Vec<Multiaddr> {
+    AsServer::filter_valid_addrs(peer, demanded, observed_remote_at)
+}
